@@ -21,7 +21,13 @@ func (f *FuncVC) val(st *State, v ssa.Value) *Val {
 	case *ssa.Global:
 		return &Val{K: KPtr, Ty: x.Type(), P: &PtrInfo{Global: x, Ty: x.Type().(*types.Pointer).Elem()}}
 	case *ssa.Function:
-		return &Val{K: KFunc, Ty: x.Type(), Fn: &Closure{Fn: x}}
+		// a function constant has an identity (non-zero), so it can be stored
+		id := sym("fnval:" + x.String())
+		if !f.sc.declared[id] {
+			f.sc.declare(id, "Int")
+			f.sc.assert(cmp("<", id, "0"))
+		}
+		return &Val{K: KFunc, Ty: x.Type(), Fn: &Closure{Fn: x}, T: id}
 	case *ssa.FreeVar:
 		if r, ok := f.regs[v]; ok {
 			return r
@@ -199,7 +205,8 @@ func (f *FuncVC) step(st *State, ins ssa.Instruction) {
 		for _, b := range x.Bindings {
 			c.Bindings = append(c.Bindings, f.val(st, b))
 		}
-		f.regs[x] = &Val{K: KFunc, Ty: x.Type(), Fn: c}
+		// the closure object gets an identity so that it can be stored
+		f.regs[x] = &Val{K: KFunc, Ty: x.Type(), Fn: c, T: f.alloc(st)}
 	case *ssa.RunDefers:
 		// no defers admitted (checked up front)
 	case *ssa.Defer, *ssa.Go, *ssa.Send, *ssa.Select:
